@@ -158,16 +158,16 @@ Theorem C13_words_reported_once : forall g sub s w t u p,
 Proof. exact words_once. Qed.
 Print Assumptions C13_words_reported_once.
 
-(* ... and the hypotheses hold for the built-in patterns 'start' and 'stop' *)
-Theorem C13_start_stop_no_overlap : forall sub, (sub = bs "start"%bs \/ sub = bs "stop"%bs) ->
-  wf_sub sub = true /\ forallb (plain_word "-"%byte) (words sub) = true /\
+(* ... and the hypotheses hold for the built-in patterns 'start' and 'stop', for every gap string over the gap symbols *)
+Theorem C13_start_stop_no_overlap : forall g sub, forallb gap_char_ok g = true -> (sub = bs "start"%bs \/ sub = bs "stop"%bs) ->
+  wf_sub sub = true /\ forallb (plain_word g) (words sub) = true /\
   prefix_free (words sub) = true /\ no_overlap (words sub) = true.
 Proof. exact start_stop_once. Qed.
 Print Assumptions C13_start_stop_no_overlap.
 
 (* gap characters inside a match are tolerated: for a word without '.', removing the gaps from the group gives the word *)
 Theorem C13_group_degap : forall g w t,
-  forallb (fun c => negb (byte_eqb c g) && negb (byte_eqb c cdot)) w = true ->
+  forallb (fun c => negb (has c g) && negb (byte_eqb c cdot)) w = true ->
   irel (compile_word (Some g) w) t -> degap g t = w.
 Proof. exact irel_degap. Qed.
 Print Assumptions C13_group_degap.
@@ -261,22 +261,32 @@ Proof. exact basket_sound. Qed.
 Print Assumptions C13_basket_sound.
 
 (* non-vacuity: the F19 witness is inside the domain and has the frames of the property text; a gapped RNA case on both strands *)
-Example C13_witness : wf_C13 [bs "CAT--AACA-T"%bs] (bs "ATG"%bs) (RStr (bs "both"%bs)) 0 (Some x2d) = true /\
-  matchall (bs "CAT--AACA-T"%bs) (bs "ATG"%bs) (RStr (bs "bwd"%bs)) 0 (Some x2d)
+Example C13_witness : wf_C13 [bs "CAT--AACA-T"%bs] (bs "ATG"%bs) (RStr (bs "both"%bs)) 0 (Some [x2d]) = true /\
+  matchall (bs "CAT--AACA-T"%bs) (bs "ATG"%bs) (RStr (bs "bwd"%bs)) 0 (Some [x2d])
   = Some [mk_bm 7 11 (bs "A-TG"%bs) (Some (-1)); mk_bm 0 3 (bs "ATG"%bs) (Some (-3))].
 Proof. exact (conj eq_refl eq_refl). Qed.
 
-Example C13_witness_rna : wf_C13 [bs "GA-UGCA-U"%bs] (bs "start"%bs) (RList [0; -1]) 1 (Some x2d) = true /\
-  matchall (bs "GA-UGCA-U"%bs) (bs "start"%bs) (RList [0; -1]) 1 (Some x2d)
+Example C13_witness_rna : wf_C13 [bs "GA-UGCA-U"%bs] (bs "start"%bs) (RList [0; -1]) 1 (Some [x2d]) = true /\
+  matchall (bs "GA-UGCA-U"%bs) (bs "start"%bs) (RList [0; -1]) 1 (Some [x2d])
   = Some [mk_bm 1 5 (bs "A-UG"%bs) (Some 0)] /\
-  matchall (bs "GA-UGCA-U"%bs) (bs "start"%bs) (RStr (bs "both"%bs)) 0 (Some x2d)
+  matchall (bs "GA-UGCA-U"%bs) (bs "start"%bs) (RStr (bs "both"%bs)) 0 (Some [x2d])
   = Some [mk_bm 1 5 (bs "A-UG"%bs) (Some 1); mk_bm 5 9 (bs "A-UG"%bs) (Some (-1))].
 Proof. exact (conj eq_refl (conj eq_refl eq_refl)). Qed.
 
 (* the former dot_on_gap witnesses (fixed in /repo by 69fc7dc) are inside the domain and have the frames of the property text *)
-Example C13_witness_dot_on_gap : wf_C13 [bs "-TG"%bs; bs "ATG-TG"%bs] (bs ".TG"%bs) (RStr (bs "fwd"%bs)) 0 (Some x2d) = true /\
-  matchall (bs "-TG"%bs) (bs ".TG"%bs) (RStr (bs "fwd"%bs)) 0 (Some x2d) = Some [mk_bm 0 3 (bs "-TG"%bs) (Some 0)] /\
-  matchall (bs "ATG-TG"%bs) (bs ".TG"%bs) (RStr (bs "fwd"%bs)) 0 (Some x2d)
+Example C13_witness_dot_on_gap : wf_C13 [bs "-TG"%bs; bs "ATG-TG"%bs] (bs ".TG"%bs) (RStr (bs "fwd"%bs)) 0 (Some [x2d]) = true /\
+  matchall (bs "-TG"%bs) (bs ".TG"%bs) (RStr (bs "fwd"%bs)) 0 (Some [x2d]) = Some [mk_bm 0 3 (bs "-TG"%bs) (Some 0)] /\
+  matchall (bs "ATG-TG"%bs) (bs ".TG"%bs) (RStr (bs "fwd"%bs)) 0 (Some [x2d])
   = Some [mk_bm 0 3 (bs "ATG"%bs) (Some 0); mk_bm 3 6 (bs "-TG"%bs) (Some 0)] /\
-  matchall (bs "A-CCA-"%bs) (bs ".TG"%bs) (RList [2; -1]) 0 (Some x2d) = Some [mk_bm 3 6 (bs "-TG"%bs) (Some (-1))].
+  matchall (bs "A-CCA-"%bs) (bs ".TG"%bs) (RList [2; -1]) 0 (Some [x2d]) = Some [mk_bm 3 6 (bs "-TG"%bs) (Some (-1))].
 Proof. exact (conj eq_refl (conj eq_refl (conj eq_refl eq_refl))). Qed.
+
+(* gap strings other than "-": the C13-8 witness (gap='.') and a mixed class "-." on both strands *)
+Example C13_witness_gap_strings :
+  wf_C13 [bs "CCA.TGCA..TAGCCTA.ACCATGA"%bs] (bs "ATG"%bs) (RStr (bs "fwd"%bs)) 0 (Some [x2e]) = true /\
+  matchall (bs "CCA.TGCA..TAGCCTA.ACCATGA"%bs) (bs "ATG"%bs) (RStr (bs "fwd"%bs)) 0 (Some [x2e])
+  = Some [mk_bm 2 6 (bs "A.TG"%bs) (Some 2); mk_bm 21 24 (bs "ATG"%bs) (Some 2)] /\
+  wf_gap (Some [x2d; x2e]) = true /\ wf_gap (Some [x2e; x2d]) = true /\ wf_gap (Some [x2e; x2d; x2e]) = false /\
+  matchall (bs "CA-.TA.T-G"%bs) (bs "ATG"%bs) (RStr (bs "both"%bs)) 0 (Some [x2d; x2e])
+  = Some [mk_bm 5 10 (bs "A.T-G"%bs) (Some 0); mk_bm 0 5 (bs "A.-TG"%bs) (Some (-1))].
+Proof. exact (conj eq_refl (conj eq_refl (conj eq_refl (conj eq_refl (conj eq_refl eq_refl))))). Qed.
